@@ -234,6 +234,17 @@ def _pure(e) -> bool:
     return False
 
 
+def _pure_b(n, bound=()) -> bool:
+    """pure, or built from pure parts by `+ - *` and the interpreter's total builtins `list tuple len bool` (they have no effect
+    and raise nothing in PyLite: a wrong type is stuck)"""
+    if _pure(n):
+        return True
+    if isinstance(n, ast.BinOp) and isinstance(n.op, (ast.Add, ast.Sub, ast.Mult)):
+        return _pure_b(n.left, bound) and _pure_b(n.right, bound)
+    return isinstance(n, ast.Call) and isinstance(n.func, ast.Name) and n.func.id in ("list", "tuple", "len", "bool") \
+        and n.func.id not in bound and not n.keywords and len(n.args) == 1 and _pure_b(n.args[0], bound)
+
+
 def _names_in(nodes) -> set:
     return {n.id for s in nodes for n in ast.walk(s) if isinstance(n, ast.Name)}
 
@@ -388,6 +399,7 @@ class Tr:
         self.mutates_self, self.mutates_params = False, set()
         self.inline_depth = 0       # nesting of inlined module-level single-return helpers
         self.block_helpers = set()
+        self.nested_fns, self.stateful = {}, ()        # round 3: set by translate_function
         self.helpers = {s.name: s for s in fn.body if isinstance(s, ast.FunctionDef)}
         # helpers that are to be externals although they could be inlined (string parsing, …): given as
         # (name, position among the nested defs); found by name, or - after a renaming - by position
@@ -675,7 +687,7 @@ class Tr:
         if any(k.arg is None for k in e.keywords) or any(isinstance(a, ast.Starred) for a in e.args):
             raise TranslationError(f"call with ** / * and keywords: {_dump(e)}")
         kws = list(e.keywords)
-        if sum(1 for k in kws if not (_pure(k.value) if self.orch else _simple(k.value))) <= 1:
+        if sum(1 for k in kws if not (_pure_b(k.value, self.bound) if self.orch else _simple(k.value))) <= 1:
             kws.sort(key=lambda k: k.arg)
         suffix = "(" + ",".join(k.arg + "=" for k in kws) + ")"
         vals = [self.expr(k.value, sub) for k in kws]
@@ -1202,7 +1214,8 @@ class Tr:
         return out
 
     def stmt(self, s) -> list:  # noqa: C901, PLR0911, PLR0912
-        if self.orch and isinstance(s, ast.FunctionDef) and self.helpers.get(s.name) is not s:
+        if self.orch and isinstance(s, ast.FunctionDef) and self.helpers.get(s.name) is not s \
+                and s.name not in self.nested_fns:
             # a def inside a block is not collected as a helper: its calls would silently become externals
             raise TranslationError(f"nested def `{s.name}` inside a block")
         if _is_docstring(s) or isinstance(s, (ast.Pass, ast.FunctionDef)):
@@ -1329,17 +1342,37 @@ class Tr:
         raise TranslationError(f"unsupported statement: {_dump(s)}")
 
     # ---------------------------------------------------------------- phase 6: methods, effects, try, attribute assignment
+    def is_ncall(self, e) -> bool:
+        """`g(…)` for a nested def `g` of this function that is itself translated (earlier in the module)"""
+        return (self.orch and isinstance(e, ast.Call) and isinstance(e.func, ast.Name) and e.func.id in self.nested_fns)
+
+    def is_scall(self, e) -> bool:
+        """`self.<attr>.m(…)` for an attribute declared STATEFUL: the call may change the object `self.<attr>` holds"""
+        return (self.orch and self.self_name is not None and isinstance(e, ast.Call)
+                and isinstance(e.func, ast.Attribute) and isinstance(e.func.value, ast.Attribute)
+                and isinstance(e.func.value.value, ast.Name) and e.func.value.value.id == self.self_name
+                and e.func.value.attr in self.stateful)
+
     def is_mcall(self, e) -> bool:
-        """`self.m(…)` for a method `m` of the same class that is translated (earlier in the module)"""
+        """`self.m(…)` for a method `m` of the same class that is translated (earlier in the module); round 3: also a
+        translated nested def, or a call on a stateful attribute of self (all three are hoisted)"""
+        if self.is_ncall(e) or self.is_scall(e):
+            return True
         return (self.orch and self.self_name is not None and isinstance(e, ast.Call)
                 and isinstance(e.func, ast.Attribute) and isinstance(e.func.value, ast.Name)
                 and e.func.value.id == self.self_name and e.func.attr in self.methods)
 
     def mcall_args(self, e: ast.Call):
         """-> (lean name of the callee, its arguments in the order of its signature; constant defaults filled in)"""
-        lean = self.methods[e.func.attr]
-        m = self.meta[lean]
-        params, dflt = m["src_params"][1:], m["defaults"]
+        if self.is_ncall(e):
+            lean = self.nested_fns[e.func.id]
+            m = self.meta[lean]
+            params, dflt = m["src_params"], m["defaults"]
+            e = ast.Call(func=ast.Attribute(value=e.func, attr=e.func.id, ctx=ast.Load()), args=e.args, keywords=e.keywords)
+        else:
+            lean = self.methods[e.func.attr]
+            m = self.meta[lean]
+            params, dflt = m["src_params"][1:], m["defaults"]
         if any(isinstance(a, ast.Starred) for a in e.args) or any(k.arg is None for k in e.keywords) \
                 or len(e.args) > len(params):
             raise TranslationError(f"call of {e.func.attr}: * / ** / too many arguments")
@@ -1366,11 +1399,13 @@ class Tr:
         if m["mutates_self"]:
             raise TranslationError(f"call of {lean}, which assigns attributes of self")
         for i in m["mutates_params"]:
-            a = args[i - 1]
+            a = args[i] if lean in self.nested_fns.values() else args[i - 1]
             if not (isinstance(a, ast.Name) and a.id in rebound and a.id not in self.params):
                 raise TranslationError(f"{lean} assigns an attribute of its parameter #{i}: the caller must pass a local "
                                        "variable that the calling statement rebinds")
             self.check_local_obj(a.id)
+        if lean in self.nested_fns.values():
+            return ("callFn", target, lean, [self.expr(a) for a in args])
         return ("callFn", target, lean, [("var", self.self_name)] + [self.expr(a) for a in args])
 
     def check_local_obj(self, x: str):
@@ -1392,19 +1427,46 @@ class Tr:
         replaced by the temporaries.  Only from positions evaluated unconditionally and once, and only when nothing
         that could raise / have an effect is evaluated before the call in Python's order."""
         has = lambda n: any(self.is_mcall(x) for x in ast.walk(n))     # noqa: E731
-        if e is None or not self.orch or self.self_name is None or not has(e):
+        if e is None or not self.orch or not has(e):
             return [], e
         pre, st = [], {"impure": False}
+
+        def pure_b(n) -> bool:
+            """pure, or built from pure parts by `+ - *` and the interpreter's total builtins `list tuple len bool` (they have no
+            effect and raise nothing in PyLite: a wrong type is stuck)"""
+            if _pure(n):
+                return True
+            if isinstance(n, ast.BinOp) and isinstance(n.op, (ast.Add, ast.Sub, ast.Mult)):
+                return pure_b(n.left) and pure_b(n.right)
+            return isinstance(n, ast.Call) and isinstance(n.func, ast.Name) and n.func.id in ("list", "tuple", "len", "bool") \
+                and n.func.id not in self.bound and not n.keywords and len(n.args) == 1 and pure_b(n.args[0])
 
         def go(n, cond):        # noqa: C901, PLR0911, PLR0912
             if _simple(n):
                 return n
             if not has(n):
-                if not _pure(n):
+                if not pure_b(n):
                     st["impure"] = True
                 return n
             if cond:
                 raise TranslationError("call of a translated method in a conditionally / repeatedly evaluated position")
+            if self.is_scall(n):
+                # `self.<attr>.m(a…)` on a stateful attribute: the external `.m!` returns (result, new object)
+                if st["impure"]:
+                    raise TranslationError("call on a stateful attribute after something that may raise in the same expression")
+                if n.keywords or any(isinstance(a, ast.Starred) for a in n.args):
+                    raise TranslationError("call on a stateful attribute with keywords / *")
+                args2 = [go(a, False) for a in n.args]
+                st["impure"] = False
+                t = self.tmp()
+                self.bound.add(t)
+                attr = n.func.value.attr
+                pre.append(("assign", t, ("ext", f".{n.func.attr}!", [("attr", ("var", self.self_name), attr)] +
+                                          [self.expr(a) for a in args2])))
+                pre.append(("setAttr", self.self_name, attr, ("index", ("var", t), ("lit", ("int", 1)))))
+                self.mutates_self = True
+                return ast.copy_location(ast.Subscript(value=ast.Name(id=t, ctx=ast.Load()), slice=ast.Constant(value=0),
+                                                       ctx=ast.Load()), n)
             if self.is_mcall(n):
                 if st["impure"]:
                     raise TranslationError("call of a translated method after something that may raise in the same expression")
@@ -1512,7 +1574,41 @@ class Tr:
             if uses == 1:       # the index is bound here and used nowhere: `for T in it`
                 return self.stmt(ast.copy_location(ast.For(target=s.target.elts[1], iter=s.iter.args[0], body=s.body,
                                                             orelse=s.orelse), s))
-            raise TranslationError("enumerate with an index that is used")
+            # the index is used: an explicit counter `c = 0; for T in it: idx = c; c = c + 1; …`
+            if any(isinstance(n, ast.Name) and n.id == idx and isinstance(n.ctx, ast.Store)
+                   for st in s.body for n in ast.walk(st)):
+                raise TranslationError("enumerate: the index is assigned in the loop")
+            c = self.tmp()
+            self.bound.add(c)
+            inner = self.stmt(ast.copy_location(ast.For(target=s.target.elts[1], iter=s.iter.args[0], body=s.body,
+                                                         orelse=s.orelse), s))
+            if len(inner) != 1 or inner[0][0] != "forIn":
+                raise TranslationError("enumerate over something that needs hoisting")
+            k, x, it, body = inner[0]
+            # the counter is advanced first so that it is right whatever the body does
+            body = [("assign", idx, ("var", c)), ("assign", c, ("bin", "add", ("var", c), ("lit", ("int", 1))))] + body
+            # (with a tuple target the unpacking comes first in `body`: the counter statements commute with it)
+            return [("assign", c, ("lit", ("int", 0))), (k, x, it, body)]
+        if isinstance(s, ast.While):
+            if s.orelse or any(isinstance(n, (ast.Break, ast.Continue)) for st in s.body for n in ast.walk(st)):
+                raise TranslationError("while: else / break / continue")
+            pre, c = self.hoist(s.test)
+            self.loop_lists.append(None)
+            try:
+                body = self.block(s.body)
+            finally:
+                self.loop_lists.pop()
+            if pre:
+                # the condition needs statements (calls on a stateful attribute): they run before the loop and again at the
+                # end of every round (loop rotation); their temporaries are bound to a variable the condition reads
+                cv = self.tmp()
+                self.bound.add(cv)
+                pre2 = pre + [("assign", cv, self.expr(c))]
+                return pre2 + [("whileF", ("ext", "while-fuel", []), ("var", cv), body + pre2)]
+            return [("whileF", ("ext", "while-fuel", []), self.expr(c), body)]
+        if isinstance(s, ast.Expr) and isinstance(s.value, ast.Yield) and s.value.value is not None:
+            pre, v = self.hoist(s.value.value)
+            return pre + [("yield", self.expr(v))] if pre else None
         tg = None
         if isinstance(s, ast.Assign) and len(s.targets) == 1:
             tg = s.targets[0]
@@ -1538,7 +1634,7 @@ class Tr:
                 else:
                     self.check_local_obj(x)
                 return pre + [("setAttr", x, tg.attr, self.expr(v))]
-            if isinstance(tg, ast.Name) and self.is_mcall(s.value):
+            if isinstance(tg, ast.Name) and self.is_mcall(s.value) and not self.is_scall(s.value):
                 lean, args = self.mcall_args(s.value)
                 pre, args2 = [], []
                 for a in args:
@@ -1566,8 +1662,9 @@ class Tr:
         if isinstance(s, ast.Expr):
             pre, v = self.hoist(s.value)
             if pre:
-                if isinstance(v, ast.Name):         # `self.m(…)` as a statement: only its effects count
-                    return pre
+                if isinstance(v, ast.Name) or (isinstance(v, ast.Subscript) and isinstance(v.value, ast.Name)
+                                               and v.value.id.startswith("_t")):
+                    return pre              # `self.m(…)` as a statement: only its effects count
                 return pre + self.stmt(ast.copy_location(ast.Expr(value=v), s))
             return None
         if isinstance(s, ast.If):
@@ -1647,6 +1744,8 @@ def normalise_names(params, body, scoped=False):
         if k == "setAttr":
             v = walk(t[3])
             return (k, nm(t[1]), t[2], v)
+        if k == "whileF":
+            return (k, walk(t[1]), walk(t[2]), walk(t[3]))
         if k == "tryExcept":
             body_ = walk(t[1])
             x = nm(t[2])
@@ -1747,7 +1846,8 @@ def constructor_as_function(fn: ast.FunctionDef) -> ast.FunctionDef:
 
 
 def translate_function(fn: ast.FunctionDef, enums, loggers=frozenset(), scoped=False, plumbing=False,
-                       opaque=(), module=None, orch=False, cls=None, methods=None, meta=None) -> dict:
+                       opaque=(), module=None, orch=False, cls=None, methods=None, meta=None,
+                       nested=None, stateful=()) -> dict:
     src_params, dflt = [p.arg for p in fn.args.args], _arg_defaults(fn.args)
     static = any(isinstance(d, ast.Name) and d.id in ("staticmethod", "classmethod") for d in fn.decorator_list)
     if plumbing and fn.name == "__init__":
@@ -1756,6 +1856,9 @@ def translate_function(fn: ast.FunctionDef, enums, loggers=frozenset(), scoped=F
     if a.vararg or a.kwarg or a.kwonlyargs or a.posonlyargs:
         raise TranslationError(f"{fn.name}: only plain positional parameters are supported")
     tr = Tr(fn, enums, loggers, plumbing, opaque, module, orch, None if static else cls, methods, meta)
+    tr.nested_fns, tr.stateful = dict(nested or {}), tuple(stateful)
+    for name in tr.nested_fns:         # a translated nested def is called through `callFn`, never inlined
+        tr.helpers.pop(name, None)
     raw = tr.block(fn.body)
     params, body, names = normalise_names([p.arg for p in a.args], canonical_init_prefix(raw, orch), scoped)
     out = {"params": params, "body": body, "names": names}
@@ -1766,7 +1869,7 @@ def translate_function(fn: ast.FunctionDef, enums, loggers=frozenset(), scoped=F
     return out
 
 
-def extract_funcs(src, funcs, scoped_comp=False, plumbing=False, opaque=None, orch=False) -> dict:
+def extract_funcs(src, funcs, scoped_comp=False, plumbing=False, opaque=None, orch=False, stateful=()) -> dict:
     """funcs: [(Lean name without the `Src` suffix, file, dotted path of the def inside the file)];
     scoped_comp: comprehension variables are numbered in their own scope (modules added in phase 4);
     plumbing: the phase-5 additions that could change earlier renderings (see the module docstring);
@@ -1801,8 +1904,27 @@ def extract_funcs(src, funcs, scoped_comp=False, plumbing=False, opaque=None, or
                 fn, scopes = find_def(tree(rel), path)
             cls = scopes[-1] if isinstance(scopes[-1], ast.ClassDef) else None
             key = (rel, path.rsplit(".", 1)[0]) if cls is not None else None
+            # round 3: nested defs of this function that are translated earlier in the module are called through `callFn`
+            nested = {q.rsplit(".", 1)[1]: l for l, r, q in funcs if r == rel and l in meta
+                      and q.rsplit(".", 1)[0] == path}
+            encl = [sc for sc in scopes if isinstance(sc, ast.FunctionDef)]
+            if encl:
+                # a nested def translated on its own must be CLOSED: it reads no variable of the enclosing functions
+                # (other than sibling defs that are translated as well)
+                own = {a.arg for n in ast.walk(fn) if isinstance(n, (ast.FunctionDef, ast.Lambda)) for a in n.args.args} | \
+                      {n.id for n in ast.walk(fn) if isinstance(n, ast.Name) and isinstance(n.ctx, ast.Store)} | \
+                      {n.name for n in ast.walk(fn) if isinstance(n, ast.FunctionDef)}
+                outer = set()
+                for sc in encl:
+                    outer |= {a.arg for a in sc.args.args} | {n.id for n in ast.walk(sc) if isinstance(n, ast.Name)
+                                                              and isinstance(n.ctx, ast.Store)} | \
+                             {n.name for n in ast.walk(sc) if isinstance(n, ast.FunctionDef)}
+                for n in ast.walk(fn):
+                    if isinstance(n, ast.Name) and isinstance(n.ctx, ast.Load) and n.id not in own and n.id in outer:
+                        raise TranslationError(f"{path}: reads `{n.id}` of the enclosing function (not closed)")
             res = translate_function(fn, enums, stdlib_loggers(tree(rel)), scoped_comp, plumbing,
-                                     (opaque or {}).get(lean, ()), tree(rel), True, cls, methods.get(key, {}), meta)
+                                     (opaque or {}).get(lean, ()), tree(rel), True, cls, methods.get(key, {}), meta,
+                                     nested, stateful)
             meta[lean] = res.pop("meta")
             if key is not None and fn.name != "__init__":
                 methods.setdefault(key, {})[fn.name] = lean
@@ -1928,6 +2050,8 @@ def _st(s, ind) -> str:  # noqa: PLR0911
         return f".callFn {_s(s[1])} {s[2]}Src.params {s[2]}Src.body [" + ", ".join(_e(x) for x in s[3]) + "]"
     if k == "setAttr":
         return f".setAttr {_s(s[1])} {_s(s[2])} {_e(s[3])}"
+    if k == "whileF":
+        return f".whileF {_e(s[1])} {_e(s[2])} {_block(s[3], ind)}"
     if k == "tryExcept":
         return f".tryExcept {_block(s[1], ind)} {_s(s[2])} {_block(s[3], ind)}"
     if k == "raise":
